@@ -69,7 +69,7 @@ class PlainName:
             if cls._tx_type is RULE_ABSTRACT:
                 for inherited in cls._tx_inh_by:
                     result = _inner_resolve_link_rule_ref(inherited, obj_name)
-                    if result:
+                    if result is not None:
                         return result
             elif cls._tx_type == RULE_COMMON and id(cls) in get_parser(obj)._instances:
                 # TODO make this code exchangable
@@ -242,12 +242,12 @@ class FQN:
                 None or the found object
             """
             ret = _find_obj_fqn(p, name, cls)
-            if ret:
+            if ret is not None:
                 return ret
             while hasattr(p, "parent"):
                 p = p.parent
                 ret = _find_obj_fqn(p, name, cls)
-                if ret:
+                if ret is not None:
                     return ret
                 # else continue to next parent or return None
 
@@ -405,20 +405,20 @@ class ImportURI(scoping.ModelLoader):
 
         # 1) try to find object locally
         ret = self.scope_provider(obj, attr, obj_ref)
-        if ret:
+        if ret is not None:
             return ret
 
         # 2) do we have loaded models?
         for m in model_repository.local_models:
             ret = self._lookup_in_other_model(m, obj, attr, obj_ref)
-            if ret:
+            if ret is not None:
                 return ret
 
         # 3) Use builtin models as a fallback if provided
         if model._tx_metamodel.builtin_models:
             for m in model._tx_metamodel.builtin_models:
                 ret = self._lookup_in_other_model(m, obj, attr, obj_ref)
-                if ret:
+                if ret is not None:
                     return ret
         return None
 
